@@ -117,6 +117,14 @@ def edit_torrent(metafile: str, args: dict) -> dict:
             meta["httpseeds"] = val
 
     meta["info"] = info
-    os.remove(metafile)
-    pyben.dump(meta, metafile)
+    # write the new file next to the old one and swap it in, so that the
+    # metafile is never missing or half written if this fails part way
+    tempname = str(metafile) + ".tmp~"
+    try:
+        pyben.dump(meta, tempname)
+    except BaseException:
+        if os.path.exists(tempname):
+            os.remove(tempname)
+        raise
+    os.replace(tempname, metafile)
     return meta
